@@ -10,7 +10,7 @@ def replay_builder_for(script, payload):
     def build(rec):
         code = ("import sys, json\nsys.path.insert(0, %r)\nimport io\nimport common\nimport %s as B\n" % (core.VERIF + "/bounded", script) +
                 "items = [(q, ci) for q in %r for ci in range(0, len(getattr(B, 'CONFIGS', None) or __import__('es_corpus').CONFIGS), 3)]\n" % (payload,) +
-                "problems = []\nfor it in items:\n    n, fails = B.check(it)\n    problems += ['%r: %s' % (f.get('input'), f.get('observation')) for f in fails if not f.get('bool_splices_nonprefix')]\n    if len(problems) > 2:\n        break\n"
+                "problems = []\nfor it in items:\n    n, fails = B.check(it)\n    problems += ['%r: %s' % (f.get('input'), f.get('observation')) for f in fails if not (f.get('bool_splices_nonprefix') or f.get('touches_leafless_nested_level') or f.get('odd_backslashes_before_wildcard'))]\n    if len(problems) > 2:\n        break\n"
                 "violated = bool(problems)\nobservation = '; '.join(problems[:2])[:1500] or 'as specified'\n")
         return [{"kind": "script", "code": code}]
     return build
